@@ -331,6 +331,81 @@ fn inbound_pipelined_case(size: usize, count: usize, piece: usize, sink: &mut Si
 
 /// Outbound: `fill` bytes already enqueued (0 or >= 9), then a message of encoded length `len`,
 /// through enqueue_call (`send` = false; only len >= 8) or send_error (`send` = true).
+/// Messages whose LAST value is not a string: what the serializer wants to have free for a number
+/// or a literal must not make a message that fits look too large.
+#[derive(Debug, Serialize)]
+struct PayTail<T: Serialize> {
+    x: String,
+    t: T,
+}
+const TAILS: [&str; 8] = ["f64 1.5", "f64 -1.0e-7", "f32 0.25", "i64 -7", "u128 max", "bool true", "null", "nested empty list"];
+
+fn outbound_tail_case(len: usize, tail: usize, sink: &mut Sink<'_>) {
+    let case = json!({"direction": "out-tail", "message_len": len, "last_value": TAILS[tail], "tail": tail});
+    let wire = Wire::new(0, None);
+    let mut conn: Conn = wire.connection();
+    // {"x":"<pad>","t":<tail>} : the pad makes the document exactly `len` bytes long
+    macro_rules! go {
+        ($t:expr) => {{
+            let probe = serde_json::to_vec(&Call::new(PayTail { x: String::new(), t: $t })).unwrap().len();
+            if len < probe {
+                sink.pass(0);
+                return;
+            }
+            let c = Call::new(PayTail { x: pad(len - probe), t: $t });
+            (conn.enqueue_call(&c), serde_json::to_vec(&c).unwrap())
+        }};
+    }
+    let (res, doc) = match tail {
+        0 => go!(1.5f64),
+        1 => go!(-1.0e-7f64),
+        2 => go!(0.25f32),
+        3 => go!(-7i64),
+        4 => go!(u128::MAX),
+        5 => go!(true),
+        6 => go!(None::<u8>),
+        _ => go!(vec![Vec::<u8>::new()]),
+    };
+    if doc.len() != len {
+        xplore::bug!("tail doc {} != {len}", doc.len());
+    }
+    let must_accept = len + 1 < LIMIT;
+    let accepted = match &res {
+        Ok(()) => true,
+        Err(zlink_core::Error::BufferOverflow) => false,
+        Err(e) => {
+            sink.fail("limits:wrong-error-for-outgoing-message", format!("{e:?}"), case);
+            return;
+        }
+    };
+    if must_accept {
+        sink.goal("message-ending-in-a-number-or-literal-just-below-the-limit");
+    }
+    if must_accept && !accepted {
+        sink.fail("limits:message-below-limit-refused", format!("a {len}-byte message (limit {LIMIT}) whose last value is {} was refused", TAILS[tail]), case);
+        return;
+    }
+    if len > LIMIT + STEP && accepted {
+        sink.fail("limits:oversized-message-not-refused", format!("a {len}-byte message (limit {LIMIT}) was accepted"), case);
+        return;
+    }
+    if let Err(e) = complete(conn.flush()) {
+        sink.fail("limits:flush-failed", format!("{e:?}"), case);
+        return;
+    }
+    let mut expect = Vec::new();
+    if accepted {
+        expect.extend_from_slice(&doc);
+        expect.push(0);
+    }
+    if wire.written() != expect {
+        sink.fail("limits:accepted-bytes-differ", format!("a {len}-byte message whose last value is {}: the transport got {} bytes, expected {}", TAILS[tail], wire.written().len(), expect.len()), case);
+        return;
+    }
+    sink.steps(1);
+    sink.pass(H64::new().u(len as u64).u(tail as u64).u(accepted as u64).get());
+}
+
 fn outbound_case(fill: usize, len: usize, send: bool, sink: &mut Sink<'_>) {
     let case = json!({"direction": "out", "already_enqueued_bytes": fill, "message_len": len, "via": if send { "send_error" } else { "enqueue_call" }});
     let wire = Wire::new(0, None);
@@ -464,6 +539,11 @@ pub fn run(tier: Tier) -> i32 {
     }));
     rep.add(sweep("out/enqueue_call", nf * (max - 7), &cfg, |i, s| outbound_case(fills[(i % nf) as usize], (i / nf) as usize + 8, false, s)));
     rep.add(sweep("out/send_error", nf * (max - 1), &cfg, |i, s| outbound_case(fills[(i % nf) as usize], (i / nf) as usize + 2, true, s)));
+    // messages that end in a number / literal / empty container, every length from 200 bytes below
+    // the limit to one step above it
+    rep.require_goal("message-ending-in-a-number-or-literal-just-below-the-limit");
+    let tail_lens: u64 = 200 + STEP as u64 + 40;
+    rep.add(sweep("out/last-value-not-a-string/near-the-limit", tail_lens * TAILS.len() as u64, &cfg, |i, s| outbound_tail_case(LIMIT - 200 + (i / TAILS.len() as u64) as usize, (i % TAILS.len() as u64) as usize, s)));
     // the production limit, with the library as it ships (main build), in a child process
     let child = xplore::report::build_dir("main").join("release/zcheck");
     let out = std::process::Command::new(&child).arg("limits-prod").output();
@@ -514,7 +594,10 @@ pub fn production_child() -> i32 {
 pub fn replay(v: &Value) -> Replayed {
     let c = if v["case"]["production"] == true { &v["case"]["case"] } else { &v["case"] };
     let cfg = Config { threads: 1, ..Default::default() };
-    let st = if c["direction"] == "in-after-prefix" {
+    let st = if c["direction"] == "out-tail" {
+        let (l, t) = (c["message_len"].as_u64().unwrap_or(100) as usize, c["tail"].as_u64().unwrap_or(0) as usize);
+        xplore::sweep_one("replay", 0, &cfg, |_, s| outbound_tail_case(l, t, s))
+    } else if c["direction"] == "in-after-prefix" {
         let (p0, t) = (c["prefix_bytes"].as_u64().unwrap_or(3) as usize, c["total_bytes"].as_u64().unwrap_or(3) as usize);
         xplore::sweep_one("replay", 0, &cfg, |_, s| inbound_after_prefix_case(p0, t, s))
     } else if c["direction"] == "in" {
